@@ -122,6 +122,16 @@ class TlcGen(object):
         return " ".join(self.cmd[self.cmd.index("tlc2.TLC"):])
 
 
+def thin(chunks, one_in):
+    """keep one case in `one_in`, chosen by a hash of the emitted line and the seed (TLC's emission order varies)"""
+    import zlib
+    k = seed()
+    for ch in chunks:
+        out = [l for l in ch if (zlib.crc32(l.encode() if isinstance(l, str) else repr(l).encode()) + k) % one_in == 0]
+        if out:
+            yield out
+
+
 def decode(line):
     """A data line is a TLA+ string literal holding JSON."""
     return json.loads(json.loads(line))
